@@ -9,7 +9,9 @@
     * the functions of the whole default table whose results mention `log.Logger` (go/types),
     * the functions and methods of stdlib/restricted.go with what they call,
     * every `p["Name"] = …` of interp/use.go `fixStdlib` with its guards and free identifiers,
-    * the symbol sets loaded by cmd/yaegi/run.go and the flag that gates each.
+    * the symbol sets loaded by cmd/yaegi/run.go and the flag that gates each,
+    * the fields of interp.Options and, for each, the statement of interp.New that moves it into the
+      interpreter (which condition guards the default: `== nil`, `len(…) > 0`, none).
   The functions below compute, for any value of those facts, what a script call reaches: a panic or the
   host's exit, the streams of `Options` or the host's, the virtual environment or the host's.
 -/
@@ -97,6 +99,24 @@ structure GateFlag where
   env : String
   deriving DecidableEq, Repr, Inhabited
 
+/-- how one field of `interp.Options` reaches the interpreter's own state in `interp.New`:
+      default-if : `if T = options.F; COND(T) { T = DFLT }`        (Stdin, Stdout, Stderr, Args)
+      set-if     : `if COND(options.F) { T = options.F }`          (SourcecodeFilesystem, BuildTags); DFLT = what the
+                   composite literal at the head of `New` puts into T
+      always     : `T = options.F`                                  (GoPath)
+      flag       : `if options.F { T = true }`                      (Unrestricted)
+      range      : `for _, e := range options.F { T[…] = … }`       (Env); DFLT = the initial map of the literal
+    `cond` is the condition as written with the tested value replaced by `_`; `outer` the enclosing conditions -/
+structure OptFlow where
+  field : String            -- "Args"
+  slot : String             -- last component of the target: "args"
+  target : String           -- "i.opt.args"
+  kind : String
+  cond : String             -- "_ == nil"
+  dflt : String             -- "os.Args"
+  outer : List String
+  deriving DecidableEq, Repr, Inhabited
+
 structure Facts where
   defaultKeys : List Key
   gated : List (String × List Key)        -- symbol sets of stdlib/unrestricted, stdlib/unsafe, stdlib/syscall
@@ -108,6 +128,8 @@ structure Facts where
   builtins : List (String × List Ident)  -- interp/run.go _print, _println: free identifiers
   uses : List UseCall
   gateFlags : List GateFlag
+  optionFields : List (String × String) := []   -- interp.Options: every field with its type
+  optFlows : List OptFlow := []                  -- interp.New: one entry per statement that reads a field of Options
   deriving Repr, Inhabited
 
 /-! ### configuration of one interpreter -/
